@@ -79,6 +79,7 @@ Inductive obs :=
 | XReset (b a : Z)
 | XH (n h : Z)                 (* a list-valued answer: number of rows and hash *)
 | XOpt (o : option Z)
+| XFail
 | XErr.
 
 Definition err_code (e : err) : Z :=
@@ -98,6 +99,7 @@ Definition obs_of (r : res) : obs :=
   | RGetVer (Some h) => XH 1 (hash (flat_hrow h))
   | ROptZ o => XOpt o
   | RNewMaps l m => XH (Z.of_nat (length l)) (hash (flat_map flat_pair l ++ [m]))
+  | RFail => XFail
   | RErr => XErr
   end.
 Definition obs_eqb (a b : obs) : bool :=
@@ -109,6 +111,7 @@ Definition obs_eqb (a b : obs) : bool :=
   | XReset b a, XReset b' a' => (b =? b') && (a =? a')
   | XH n h, XH n' h' => (n =? n') && (h =? h')
   | XOpt o, XOpt o' => opt_eqb Z.eqb o o'
+  | XFail, XFail => true
   | _, _ => false
   end.
 Definition ohash_eqb (s : option st) (h : option Z) : bool :=
